@@ -1,22 +1,40 @@
 # bin/check configuration of property C17 (a single dict expression)
 {'harness': 'c17',
  'props': 'Props/C17.v',
- 'models': ['Base/Tree.v', 'Model/Stream.v'],
- 'trusted': ['reachable size is measured by the harness after every Read during which the format reader returned a node '
-             '(transformed or failed with a continuable error; the node is taken from the logging FileFormat wrapper of vh, '
-             'a public extension point, and for transformed records it is checked to be RawRecord().Raw()): the tree under the '
-             'root found through Parent links, and the closure over Parent/FirstChild/LastChild/PrevSibling/NextSibling',
-             'record-at-a-time readers (hierarchy reader, EDI, fixed-length, old csv) enter through the '
-             'small attach/filter/release model flat_run; the XML/JSON stream readers through the C04 reader '
-             'models',
-             'Go garbage collection of detached nodes is outside the model (a detached subtree is '
-             'unreachable from the root)',
-             'retention outside the node tree (reader-internal buffers) is not in the model: it is checked on the implementation only, '
-             'by a live-heap oracle (runtime.GC + MemStats.HeapAlloc, minimum of three samples, every 1/16 of a 4*10^4 (quick) / '
-             '3*10^5 (thorough) record run after a warm-up; last third vs first third, slack 256 KB / 2 MB; goroutine stack memory (MemStats.StackInuse) is sampled from a second goroutine while Reads are in progress, slack 4 MB, with one unbroken run of 10^5 filter-rejected records per format; observed noise on the '
-             'unchanged tree: under 10 KB)'],
- 'assumptions': ['no_separator_text (XML): no character data between the records (F7 is the known finding '
-                 'outside this guard)',
-                 'the repeated part consists of target records under a fixed set of ancestors; records of '
-                 'non-target declarations and wrappers that are not themselves on the target path stay '
-                 'attached by design']}
+ 'models': ['Base/Tree.v', 'Gen/StreamSplit.v', 'Model/Stream.v'],
+ 'trusted': ['reachable size is measured by the harness after every Read during which the format reader returned a node (transformed or failed with '
+             'a continuable error; the node is taken from the logging FileFormat wrapper of vh, a public extension point, and for transformed '
+             'records it is checked to be RawRecord().Raw()): the tree under the root found through Parent links, and the closure over '
+             'Parent/FirstChild/LastChild/PrevSibling/NextSibling',
+             'record-at-a-time readers (hierarchy reader, EDI, fixed-length, old csv) enter through the small attach/filter/release model flat_run; '
+             'the XML/JSON stream readers through the C04 reader models',
+             'Go garbage collection of detached nodes is outside the model (a detached subtree is unreachable from the root)',
+             'retention outside the node tree (reader-internal buffers) is not in the model: it is checked on the implementation only, by a '
+             'live-heap oracle (runtime.GC + MemStats.HeapAlloc, minimum of three samples, every 1/16 of a 4*10^4 (quick) / 3*10^5 (thorough) record '
+             'run after a warm-up; last third vs first third, slack 256 KB / 2 MB; goroutine stack memory (MemStats.StackInuse) is sampled from a '
+             'second goroutine while Reads are in progress, slack 4 MB, with one unbroken run of 10^5 filter-rejected records per format; observed '
+             'noise on the unchanged tree: under 10 KB)',
+             'EXTRACTED on every run (gen_stream.go -> Gen/StreamSplit.v): transform/parse.go xpathMatchFlags (a dynamic xpath is queried with '
+             'idr.DisableXPathCache, and the two xpath queries are made directly in querySingleNodeFromXPath / parseArray) and idr/query.go '
+             'loadXPathExpr (that flag compiles without touching the cache); dynamic_xpaths_store_nothing / cache_only_static are proved over them; '
+             'the set of cached expression texts is read from caches.XPathExprCache before and after a run with per-record distinct xpath_dynamic '
+             'and compared with the model (C17XPath cases)',
+             'PROVED (all inputs): retained = fixed part + the delivered record for XML (under ancestors, no separator text), JSON (root array, '
+             'object values / arrays below nested objects), record-at-a-time readers incl. group/child-record targets; rejected records - runs of '
+             'any length - leave the stream readers and the flat reader in the state they were in (xml/json_rejected_restores, '
+             'rejected_run_leaves_nothing); release timing is irrelevant',
+             'COMPARED ONLY: live heap and goroutine stack memory (retention outside the node tree), positional stream filters (outside the target '
+             'class; checked through the attach/filter/release abstraction)'],
+ 'assumptions': ['no_separator_text (XML): no character data between the records (F7 is the known finding outside this guard)',
+                 'the repeated part consists of target records under a fixed set of ancestors; records of non-target declarations and wrappers that '
+                 'are not themselves on the target path stay attached by design'],
+ 'level_text': 'Coq theorems over the same reader models as C04 and a small attach/filter/release model of the record-at-a-time readers: what is '
+               'reachable from the k-th delivered record is a fixed part plus that record, for every k, every number of records, every filter '
+               'outcome (runs of rejections of any length restore the state exactly), every Release timing; the xpath expression cache stores '
+               'nothing for computed xpaths (facts extracted from the source on every run); tied to the code by measuring the reachable node graph '
+               '(all five links) at every reader delivery through the public Transform API for all seven formats and comparing with the model; '
+               'retention outside the node tree is checked on the implementation by live-heap and stack-memory oracles over long inputs.',
+ 'level_note': 'Trusted: Coq kernel/vm_compute, the Go harness and extractor, the Go runtime memory statistics; no axioms (Print Assumptions: '
+               'closed). F7 (XML character data between records) is the registered known finding outside the guard no_separator_text.',
+ 'technique': 'machine-checked proof in Coq 8.16 (induction over record lists and ancestor chains, state-restoration invariants) + '
+              'model/implementation correspondence + heap/stack measurement + extracted call shapes'}
